@@ -34,9 +34,9 @@ STREAMS = {
     'hsm-enum': lambda: hsm11.HKnobs(p_enum=1.0, p_clash=0.2, p_override=0.1, p_children=0.6),
 }
 BUDGET = {   # stream -> (quick: chunks, per chunk), (thorough: chunks, per chunk)
-    'flat': ((12, 70), (48, 280)),
+    'flat': ((12, 60), (48, 280)),
     'flat-clash': ((4, 60), (16, 200)),
-    'hsm': ((12, 14), (48, 75)),
+    'hsm': ((12, 12), (48, 75)),
     'hsm-custom-sep': ((4, 10), (16, 55)),
     'hsm-enum': ((4, 10), (16, 40)),
 }
@@ -230,11 +230,13 @@ class C11(runner.Check):
                 'TM.Helpers.C11_checked_assignment', 'TM.Helpers.C11_wrapper_binding',
                 'TM.Helpers.C11_trigger_ne_attribute', 'TM.Helpers.C11_names_injective')
     rule = ('flat: random model_attribute / model_override / auto_transitions / Enum-or-string states, 1-2 model classes '
-            'predefining up to 4 clashing names as methods, class values, instance values or None (or the machine as '
+            'predefining up to 4 clashing names as methods, class values, instance values, falsy values (False, 0, "", (), []) '
+            'or None (or the machine as '
             'its own model), histories of 4-20 calls (initial, add_states, add_transition incl. "*", "=", internal, '
             'blocked by a condition, named like the state attribute or like a helper; remove_transition with '
             'selectors; add_model early/late/twice; events incl. to_<state>); hierarchical: trees of depth <= 3 with '
-            'parallel states, initial children, transitions declared in nested scopes, default or custom separator, '
+            'parallel states, initial children, transitions declared in nested scopes, children given as an embedded '
+            'HierarchicalMachine with its own auto_transitions flag, nested Enum classes, default or custom separator, '
             'states / root / local transitions / models added later. Every step of every case is introspected. '
             'Non-trivial (flat) = a reconfiguration after a model was registered and an executed transition; '
             '(hierarchical) = nested states, >= 2 steps and an executed transition; distinct = different case JSON')
